@@ -66,6 +66,12 @@ Proof.
   apply wf_replace; auto; [congruence|wf_leaf].
 Qed.
 
+Lemma wf_k_ftruncate0 st f : wfs st -> wfs (k_ftruncate0 st f).
+Proof.
+  intro W. unfold k_ftruncate0. destruct (get (root st) (fd_path f)) as [[c|es|t]|] eqn:G; auto.
+  apply wf_replace; auto; [congruence|wf_leaf].
+Qed.
+
 Lemma wf_k_mknode st path n : wfs st -> wf_node n = true -> wfs (fst (k_mknode st path n)).
 Proof.
   intros W N. unfold k_mknode. destruct (resolve st false path) as [e|d nm [k|]|d dot] eqn:R; auto.
@@ -163,7 +169,8 @@ Proof. intro W. unfold f_symlink. pose proof (wf_k_symlink st t p W). destruct (
 Lemma wf_f_rename st a b fie : wfs st -> wfs (fst (f_rename st a b fie)).
 Proof.
   intro W. unfold f_rename. destruct fie.
-  - pose proof (wf_k_open st b true false true true false W) as W1.
+  - destruct (k_lstat st a); auto.
+    pose proof (wf_k_open st b true false true true false W) as W1.
     destruct (k_open st b true false true true false) as [st1 [f|e]]; auto. cbn [fst] in W1.
     pose proof (wf_k_rename st1 a b W1) as W2. destruct (k_rename st1 a b) as [st2 [e|]]; auto.
     cbn [fst] in *. apply wf_k_unlink. auto.
@@ -177,10 +184,12 @@ Proof.
   destruct (k_open st a true false false false false) as [st1 [fs|e]]; auto. cbn [fst] in W1.
   destruct (fd_dir fs); auto. destruct (k_lseek st1 fs 0 2) as [fs1 size]. destruct (size <? 0); auto.
   destruct (k_lseek st1 fs1 0 0) as [fs2 z]. destruct (z <? 0); auto.
-  pose proof (wf_k_open st1 b false true true fie true W1) as W2.
-  destruct (k_open st1 b false true true fie true) as [st2 [fd2|e]]; auto. cbn [fst] in W2.
-  pose proof (wf_k_sendfile st2 fd2 fs2 (Z.to_nat size) W2) as W3.
-  destruct (k_sendfile st2 fd2 fs2 (Z.to_nat size)) as [st3 [n|e]]; auto.
+  pose proof (wf_k_open st1 b false true true fie false W1) as W2.
+  destruct (k_open st1 b false true true fie false) as [st2 [fd2|e]]; auto. cbn [fst] in W2.
+  destruct (same_file fs2 fd2); auto.
+  pose proof (wf_k_ftruncate0 st2 fd2 W2) as W2'.
+  pose proof (wf_k_sendfile (k_ftruncate0 st2 fd2) fd2 fs2 (Z.to_nat size) W2') as W3.
+  destruct (k_sendfile (k_ftruncate0 st2 fd2) fd2 fs2 (Z.to_nat size)) as [st3 [n|e]]; auto.
 Qed.
 
 Lemma wf_d_create fuel : forall st p, wfs st -> wfs (fst (d_create fuel st p)).
